@@ -63,7 +63,7 @@ BadParse(e) ==
        THEN {"C07.parse.ref16"} ELSE {"C07.parse"}
 
 Bad(e) ==
-  CASE e.ev = "Split" -> BadSplit(e)
+  CASE e.ev = "Split" -> BadSplit(e) \cup T(e.entry = "batch" /\ BadSplit(e) \cap {"C06.preserves", "C06.preserves.tail_lost", "C06.single", "C06.err"} # {}, "C09.parts")
     [] e.ev = "Parse" -> BadParse(e)
     [] e.ev = "SweepStart" -> {}
     [] e.ev = "Sweep" ->
